@@ -1,5 +1,7 @@
 import SockModel.Model.SendLoopLemmas
 import SockModel.Model.ToDosLemmas
+import SockModel.Model.ToDosStepLemmas
+import SockModel.Spec.C07
 import SockModel.Generated.Funcs
 /-!
 # C07  Timeouts mean what the documentation says, for every blocking call
@@ -12,6 +14,10 @@ library passes to `poll` and about the virtual time that passes inside those pol
 readiness after any delay, never, signals at any time, failures.
 
 `-intMax ≤ T ≤ intMax` is the documented domain `|T| < 2^31` ms.
+
+The helper lemmas about `StepTodos` (`stepTodos_wait`, `DBound`, ...) are proved in `Model/ToDosStepLemmas.lean`
+(shared with `Spec/C07.lean`); `spec_holds_on_model` / `spec_holds_on_model_step` (before the source-derived
+tie) link the run-time oracle of `./check C07` to the model.
 -/
 namespace SockModel.SendLoop
 open SockModel.Deadline
@@ -211,90 +217,6 @@ theorem step_full_wait (fuel : Nat) (T : Int) (s : St) (h : s.todos = []) :
   · rfl
   · split <;> rfl
 
-theorem foldl_applyOp_now_mono (ops : List BodyOp) (s0 : St) : s0.now ≤ (ops.foldl applyOp s0).now := by
-  induction ops generalizing s0 with
-  | nil => exact Int.le_refl _
-  | cons op ops ih =>
-    simp only [List.foldl_cons]
-    have h1 : s0.now ≤ (applyOp s0 op).now := by
-      cases op with
-      | shift id w => simp only [applyOp]; split <;> exact Int.le_refl _
-      | shiftd id ms => simp only [applyOp]; split <;> exact Int.le_refl _
-      | cancel id => simp only [applyOp]; split <;> exact Int.le_refl _
-      | newAt id w => simp only [applyOp]; split <;> exact Int.le_refl _
-      | newIn id ms => simp only [applyOp]; split <;> exact Int.le_refl _
-      | drop id => exact Int.le_refl _
-      | adv ns => simp only [applyOp]; omega
-      | stop => exact Int.le_refl _
-    exact Int.le_trans h1 (ih _)
-
-/-- facts about the timeout `StepTodos` hands to the socket wait -/
-theorem stepTodos_wait (fuel : Nat) (d : Deadline) (s : St) (hd : d.now = s.now) (ms : Int) (s' : St)
-    (h : stepTodos fuel d s = (ms, s')) :
-    s.now ≤ s'.now ∧
-    (∀ f rest, s'.todos = f :: rest → 0 ≤ ms ∧ (s'.now < f.when → ms * nsPerMs ≤ f.when - s'.now)) := by
-  induction fuel generalizing d s with
-  | zero =>
-    simp only [stepTodos] at h
-    cases h
-    exact ⟨Int.le_refl _, by intro f rest _; exact ⟨Int.le_refl _, by intro hh; simp only at hh ⊢; omega⟩⟩
-  | succ fuel ih =>
-    unfold stepTodos at h
-    cases ht : s.todos with
-    | nil =>
-      rw [ht] at h; cases h
-      exact ⟨Int.le_refl _, by intro f rest h; rw [ht] at h; cases h⟩
-    | cons front rest0 =>
-      rw [ht] at h
-      simp only at h
-      split at h
-      · rename_i hnot
-        cases h
-        refine ⟨Int.le_refl _, ?_⟩
-        intro f rest h
-        rw [ht] at h
-        cases h
-        have hu : 0 ≤ front.when - d.now := by omega
-        have h1 := toMs_nonneg hu
-        have h2 := toMs_mul_le hu
-        unfold minDuration
-        split
-        · exact ⟨h1, by intro _; rw [← hd]; exact h2⟩
-        · rename_i hr
-          have hmin : min (toMs (front.when - d.now)) d.remaining ≤ toMs (front.when - d.now) := Int.min_le_left _ _
-          have hr0 : 0 ≤ d.remaining := by omega
-          refine ⟨by omega, ?_⟩
-          intro _
-          rw [← hd]
-          have hns : (0 : Int) < nsPerMs := by decide
-          have := Int.mul_le_mul_of_nonneg_right hmin (Int.le_of_lt hns)
-          omega
-      · -- the front task runs; time may pass in its body (adv ≥ 0)
-        have hm := foldl_applyOp_now_mono (s.body front.id)
-          { s with todos := rest0, log := .ran front.id front.when d.now rest0 front.seq :: s.log }
-        simp only at hm
-        split at h
-        · rename_i hemp
-          cases h
-          refine ⟨hm, ?_⟩
-          intro f rest h
-          have : ((s.body front.id).foldl applyOp
-              { s with todos := rest0, log := .ran front.id front.when d.now rest0 front.seq :: s.log }).todos = [] := by
-            simpa using hemp
-          rw [this] at h; cases h
-        · split at h
-          · have htick : (d.tick ((s.body front.id).foldl applyOp
-                { s with todos := rest0, log := .ran front.id front.when d.now rest0 front.seq :: s.log }).now).now
-                = ((s.body front.id).foldl applyOp
-                { s with todos := rest0, log := .ran front.id front.when d.now rest0 front.seq :: s.log }).now := by
-              cases d <;> rfl
-            have := ih _ _ htick h
-            exact ⟨Int.le_trans hm this.1, this.2⟩
-          · cases h
-            refine ⟨hm, ?_⟩
-            intro f rest _
-            exact ⟨Int.le_refl _, by intro _; omega⟩
-
 /-- "it never sleeps past the due time of the earliest pending ToDo": when a ToDo is still pending
 after the tasks of this step ran, the timeout passed to the socket wait is non-negative (never
 unlimited) and ends no later than that ToDo's due time.  Holds for every timeout `T`, every due
@@ -302,116 +224,15 @@ time (also ≥ 2^31 ms ahead, thanks to the clamp of fix F6) and every task beha
 theorem step_not_past_todo (fuel : Nat) (T : Int) (s : St) (ms : Int) (s' : St)
     (hst : stepTodos fuel (Deadline.make T s.now) s = (ms, s')) :
     ∀ f rest, s'.todos = f :: rest →
-      0 ≤ toMsec ms ∧ (s'.now < f.when → toMsec ms * nsPerMs ≤ f.when - s'.now) := by
-  intro f rest h
-  have hmake : (Deadline.make T s.now).now = s.now := by
-    unfold Deadline.make; split
-    · rfl
-    · split <;> rfl
-  obtain ⟨_, h2⟩ := stepTodos_wait fuel (Deadline.make T s.now) s hmake ms s' hst
-  obtain ⟨h0, hle⟩ := h2 f rest h
-  have hns : (0 : Int) < nsPerMs := by decide
-  have hcl : 0 ≤ toMsec ms ∧ toMsec ms ≤ ms := by
-    unfold toMsec
-    split
-    · unfold intMax at *; omega
-    · split
-      · unfold intMax at *; omega
-      · omega
-  refine ⟨hcl.1, ?_⟩
-  intro hlt
-  have := Int.mul_le_mul_of_nonneg_right hcl.2 (Int.le_of_lt hns)
-  have := hle hlt
-  omega
-
-/-- the deadline object of a `Step(T)`, `T ≥ 0`, never promises more than `T` -/
-def DBound (T : Int) : Deadline → Prop
-  | .unlimited _ => T < 0
-  | .zero _ => T = 0
-  | .limited n dl => 0 < T ∧ dl - n ≤ T * nsPerMs
-
-theorem DBound_make (T now : Int) : DBound T (Deadline.make T now) := by
-  unfold Deadline.make
-  split
-  · assumption
-  · split
-    · assumption
-    · exact ⟨by omega, by omega⟩
-
-theorem DBound_tick {T : Int} {d : Deadline} (h : DBound T d) (n' : Int) (hn : d.now ≤ n') : DBound T (d.tick n') := by
-  cases d with
-  | unlimited n => exact h
-  | zero n => exact h
-  | limited n dl =>
-    simp only [Deadline.tick, DBound, Deadline.now] at *
-    exact ⟨h.1, by omega⟩
-
-theorem DBound_remaining {T : Int} {d : Deadline} (h : DBound T d) (hT : 0 ≤ T) : d.remaining ≤ T ∧ 0 ≤ d.remaining := by
-  cases d with
-  | unlimited n => simp only [DBound] at h; omega
-  | zero n => simp only [DBound] at h; simp only [Deadline.remaining]; omega
-  | limited n dl =>
-    simp only [DBound] at h
-    show (if toMs (dl - n) < 0 then 0 else toMs (dl - n)) ≤ T ∧ 0 ≤ (if toMs (dl - n) < 0 then 0 else toMs (dl - n))
-    split
-    · omega
-    · rename_i hge
-      refine ⟨?_, by omega⟩
-      by_cases hx : 0 ≤ dl - n
-      · have := toMs_mul_le hx
-        unfold nsPerMs at *
-        omega
-      · have : toMs (dl - n) ≤ 0 := by
-          unfold toMs nsPerMs
-          have h1 : (dl - n) = -(n - dl) := by omega
-          rw [h1, Int.neg_tdiv]
-          have := Int.tdiv_nonneg (a := n - dl) (b := 1000000) (by omega) (by decide)
-          omega
-        omega
+      0 ≤ toMsec ms ∧ (s'.now < f.when → toMsec ms * nsPerMs ≤ f.when - s'.now) :=
+  stepTodos_not_past fuel T s ms s' hst
 
 /-- "Driver::Step is bounded by T from above in the same way": for `T ≥ 0` the timeout handed to the
 socket wait after the due tasks ran is within `[0, T]`, whatever the tasks did and however long they
-took. -/
+took (`DBound T d`: the deadline object never promises more than `T`; `DBound_make`). -/
 theorem step_bounded (fuel : Nat) (T : Int) (hT : 0 ≤ T) (d : Deadline) (s : St) (hd : d.now = s.now)
-    (hb : DBound T d) (ms : Int) (s' : St) (h : stepTodos fuel d s = (ms, s')) : 0 ≤ ms ∧ ms ≤ T := by
-  induction fuel generalizing d s with
-  | zero => simp only [stepTodos] at h; cases h; exact ⟨Int.le_refl _, hT⟩
-  | succ fuel ih =>
-    unfold stepTodos at h
-    cases ht : s.todos with
-    | nil => rw [ht] at h; cases h; have := DBound_remaining hb hT; exact ⟨this.2, this.1⟩
-    | cons front rest0 =>
-      rw [ht] at h
-      simp only at h
-      split at h
-      · rename_i hnot
-        cases h
-        have hr := DBound_remaining hb hT
-        have hu : 0 ≤ front.when - d.now := by omega
-        have h1 := toMs_nonneg hu
-        unfold minDuration
-        split
-        · omega
-        · have hmin : min (toMs (front.when - d.now)) d.remaining ≤ d.remaining := Int.min_le_right _ _
-          have hmin2 : 0 ≤ min (toMs (front.when - d.now)) d.remaining := by
-            rcases Int.min_def (toMs (front.when - d.now)) d.remaining with _
-            omega
-          exact ⟨hmin2, by omega⟩
-      · have hm := foldl_applyOp_now_mono (s.body front.id)
-          { s with todos := rest0, log := .ran front.id front.when d.now rest0 front.seq :: s.log }
-        simp only at hm
-        have hb' := DBound_tick hb ((s.body front.id).foldl applyOp
-          { s with todos := rest0, log := .ran front.id front.when d.now rest0 front.seq :: s.log }).now (by omega)
-        split at h
-        · cases h; have := DBound_remaining hb' hT; exact ⟨this.2, this.1⟩
-        · split at h
-          · have htick : (d.tick ((s.body front.id).foldl applyOp
-                { s with todos := rest0, log := .ran front.id front.when d.now rest0 front.seq :: s.log }).now).now
-                = ((s.body front.id).foldl applyOp
-                { s with todos := rest0, log := .ran front.id front.when d.now rest0 front.seq :: s.log }).now := by
-              cases d <;> rfl
-            exact ih _ _ htick hb' h
-          · cases h; exact ⟨Int.le_refl _, hT⟩
+    (hb : DBound T d) (ms : Int) (s' : St) (h : stepTodos fuel d s = (ms, s')) : 0 ≤ ms ∧ ms ≤ T :=
+  stepTodos_bounded fuel T hT d s hd hb ms s' h
 
 /-- the shipped `ToMsec` (narrowing to 32 bits, finding F6) does NOT have this property: a ToDo due
 2^31 ms ahead turns the wait into an unlimited one. -/
@@ -421,6 +242,31 @@ theorem legacy_sleeps_past_todo :
   refine ⟨-1, { todos := [⟨1, 2147483648 * 1000000, 0⟩], now := 0 }, ⟨1, 2147483648 * 1000000, 0⟩, rfl, by decide, by decide⟩
 
 end SockModel.ToDos
+
+/-! ## The run-time oracle is a theorem of the model (`Spec/C07.lean`) -/
+namespace SockModel.Spec.C07
+/-- the timeout clauses `./check C07` evaluates on the implementation's blocking socket operations
+(`Spec/C07.lean`: `specStep` = `specStepM c07` with `specTimeouts` - `T < 0`: only unlimited polls, never
+'nothing'; `T = 0`: only zero polls, no time passes; `T > 0`: every poll argument within `[0, T - elapsed]`,
+total blocking at most `T`, 'nothing' only at `start + T` - plus `MSG_NOSIGNAL` and crash / hang) accept every
+trace of the model (`send` / `receive` / `sendTo` / `receiveFrom` / `acceptT` of `Model/SendLoop.lean` on
+arbitrary scripted OS answers; the model trace is the one of `Spec/C01.lean`), for every history of any
+length.  `histOk` is the domain: `T < 2^31` ms, and no "timed out" answer of the kernel to an unlimited poll. -/
+theorem spec_holds_on_model (history : List C01.Op) (h : histOk history = true) :
+    ∃ s, specRun () (C01.modelTrace {} history) = .ok s :=
+  model_satisfies_spec history h
+
+/-- the clauses `./check C07` (and `./check C06`) evaluate on the implementation's `Driver::Step` transcripts
+(`Spec/C07.lean`: `Step.specStep` - one socket wait per step, within `[0, T]` for `T ≥ 0`, never unlimited and
+never past the due time of the earliest pending ToDo, the full `T` when idle, a due task is run, no task after
+the wait, monotone clock, and the reference scheduler of `Spec/C06.lean` for every invocation) accept every
+trace of the model (`Model/ToDos.lean`, with the `ToMsec` clamp of fix F6), for every history of any length
+with arbitrary task bodies.  Domain: `T < 2^31` ms for every `Step(T)`; `fuel ≥ 1` task invocations per step. -/
+theorem spec_holds_on_model_step (fuel : Nat) (hf : 0 < fuel) (history : List ToDos.Op)
+    (h : history.all Step.opOk = true) :
+    ∃ s, Step.specRun {} (Step.modelTrace fuel {} history) = .ok s :=
+  Step.model_satisfies_spec fuel hf history h
+end SockModel.Spec.C07
 
 /-! ## Source-derived tie (DESIGN.md §0.7)
 
